@@ -49,7 +49,11 @@ ThirdCases == {[op |-> "reuse_then_third", operands |-> s, tree |-> Leaf(1), ref
 \* (a: the pipeline that reads variables while it runs - 8 prints one, 9 fills placeholders; b and c give the variable different values)
 AfterUseCases == {[op |-> "reuse_after_use", operands |-> s, tree |-> Leaf(1), ref |-> SumSeq(<<Pool[s[1]], Pool[s[3]]>>)]
                      : s \in {t \in Seqs(3) : t[1] \in {8, 9}}}
-ASSUME LET S == SetToSeq(AfterUseCases \cup DefaultCases \cup ThirdCases \cup SumCases \cup ResolveCases \cup BackendCases \cup SwitchCases \cup ReuseCases)
+\* the same pipeline named twice: p + p, (p + q) + p, and the same name twice in the resolver's list
+TwiceCases == {[op |-> "sum", operands |-> <<i, i>>, tree |-> Node(Leaf(1), Leaf(2)), ref |-> SumSeq(<<Pool[i], Pool[i]>>)] : i \in (1..NPool) \ {2}}      \* (2 has the finalizer: twice, the second would be fed a string)
+              \cup {[op |-> "sum", operands |-> <<i, j, i>>, tree |-> Node(Node(Leaf(1), Leaf(2)), Leaf(3)), ref |-> SumSeq(<<Pool[i], Pool[j], Pool[i]>>)] : i \in {1, 8}, j \in {2, 3}}
+              \cup {[op |-> "resolve", operands |-> <<i, i>>, tree |-> Leaf(1), ref |-> Resolve(<<Pool[i], Pool[i]>>)] : i \in {1, 3, 8}}
+ASSUME LET S == SetToSeq(TwiceCases \cup AfterUseCases \cup DefaultCases \cup ThirdCases \cup SumCases \cup ResolveCases \cup BackendCases \cup SwitchCases \cup ReuseCases)
        IN  ndJsonSerialize(IOEnv.VERIF_OUT, [i \in 1..Len(S) |-> [id |-> i, pool |-> Pool] @@ S[i]])
 Init == x = 0
 Next == UNCHANGED x
